@@ -98,6 +98,24 @@ pub fn run(mut run: Run) -> i32 {
             if ua != sa.abs() {
                 acc.viol("Polygon::unsigned_area != |signed_area|".into(), idx, || json!({"polygon": format!("{:?}", pg), "signed": sa, "unsigned": ua}));
             }
+            // the f32 instantiation on the unshifted lattice (all values exact), winding order also for i64 (Area needs a float type)
+            if off == (0.0, 0.0) && scale == 1.0 {
+                let g32 = map_geom_g(&Geometry::Polygon(pg.clone()), &|c| Coord { x: c.x as f32, y: c.y as f32 });
+                let gi = map_geom_g(&Geometry::Polygon(pg.clone()), &|c| Coord { x: c.x as i64, y: c.y as i64 });
+                acc.evals += 2;
+                let (a32, u32_) = (g32.signed_area() as f64, g32.unsigned_area() as f64);
+                if a32 != want || u32_ != want.abs() {
+                    acc.viol("Polygon<f32> area differs from the exact area on the lattice".into(), idx, || json!({"polygon": format!("{:?}", pg), "exact": want, "signed_f32": a32, "unsigned_f32": u32_}));
+                }
+                if let (Geometry::Polygon(p32), Geometry::Polygon(pi)) = (&g32, &gi) {
+                    use geo::winding_order::WindingOrder as W;
+                    let ww = |w: Option<W>| match w { Some(W::CounterClockwise) => 1, Some(W::Clockwise) => -1, None => 0 };
+                    let ex = if shell_ccw { 1 } else { -1 };
+                    if ww(p32.exterior().winding_order()) != ex || ww(pi.exterior().winding_order()) != ex {
+                        acc.viol("winding_order<f32/i64> of the exterior differs from the exact orientation".into(), idx, || json!({"polygon": format!("{:?}", pg)}));
+                    }
+                }
+            }
             // collections
             if mask == 0 {
                 let mp = MultiPolygon(vec![pg.clone(), pg.clone()]);
